@@ -13,11 +13,15 @@ RECURSIVE Gcd(_, _)
 Gcd(a, b) == IF b = 0 THEN a ELSE Gcd(b, a % b)
 Abs(a) == IF a < 0 THEN -a ELSE a
 Norm(n, d) == IF n = 0 THEN <<0, 1>> ELSE LET g == Gcd(Abs(n), d) IN <<n \div g, d \div g>>
-RAdd(a, b) == Norm(a[1] * b[2] + b[1] * a[2], a[2] * b[2])
-RMul(a, b) == Norm(a[1] * b[1], a[2] * b[2])
+\* over the least common denominator / with cross-cancellation first: TLC integers are 32 bit, and the denominators of
+\* one circuit's weights multiply up to 2^26 (the plain cross-multiplied forms overflow on deep noisy circuits)
+RAdd(a, b) == LET g == Gcd(a[2], b[2]) IN Norm(a[1] * (b[2] \div g) + b[1] * (a[2] \div g), (a[2] \div g) * b[2])
+RMul(a, b) == LET g1 == Gcd(Abs(a[1]), b[2]) g2 == Gcd(Abs(b[1]), a[2])
+                  h1 == IF g1 = 0 THEN 1 ELSE g1 h2 == IF g2 = 0 THEN 1 ELSE g2 IN
+              Norm((a[1] \div h1) * (b[1] \div h2), (a[2] \div h2) * (b[2] \div h1))
 RNeg(a) == <<-a[1], a[2]>>
 RSub(a, b) == RAdd(a, RNeg(b))
-RDiv(a, b) == IF b[1] > 0 THEN Norm(a[1] * b[2], a[2] * b[1]) ELSE Norm(-a[1] * b[2], a[2] * (-b[1]))
+RDiv(a, b) == IF b[1] > 0 THEN RMul(a, <<b[2], b[1]>>) ELSE RMul(a, <<-b[2], -b[1]>>)
 RZero == <<0, 1>>
 ROne == <<1, 1>>
 RLeq(a, b) == a[1] * b[2] <= b[1] * a[2]
